@@ -27,7 +27,7 @@ func init() {
 	fw.Register(&fw.Prop{
 		ID:       "C12",
 		Rule:     "conformant frames of every kind the parser entry point accepts (switch-originated: hello, error, experimenter error, echo, features/get-config replies, packet-in with every payload chain, flow-removed, port-status, every multipart reply with nested matches/instructions/actions, vendor replies; controller-originated: flow-mod, group-mod, packet-out, port-mod, multipart requests, Nicira messages, bundle control and bundle add with nested messages) are parsed from a buffer that is a window of a larger array. Monitor A walks the whole object graph of the result by reflection (exported and unexported fields, pointers, interfaces, slices, maps, bytes.Buffer internals) and reports any slice whose backing array overlaps the input array. Monitor B takes the deep dump and the re-encoding, overwrites the whole input array (complement, then 0xAA), and requires dump and re-encoding to be unchanged. distinct = hash(recipe without xid); non-trivial = the message has at least one variable-size part (nested element, payload or data)",
-		NumCases: func(tier string, seed uint64) int { return nCases(tier, 60000, 12000000) },
+		NumCases: func(tier string, seed uint64) int { return nCases(tier, 300000, 12000000) },
 		Gen: func(tier string, seed uint64, i int) any {
 			r := prng.Derive(seed, 1212, uint64(i))
 			if i%2 == 0 {
